@@ -527,5 +527,7 @@ func Gen(t *rapid.T) Case {
 	for i := 0; i < nops; i++ {
 		c.Ops = append(c.Ops, genOp(t, ms[i], 3, kit.Tier() == "thorough"))
 	}
+	c.TailEOF = rapid.Bool().Draw(t, "last-bytes-arrive-with-eof")
+	c.Reuse = rapid.SampledFrom([]string{"", "", "", "before", "between"}).Draw(t, "connection-reuse")
 	return c
 }
